@@ -77,10 +77,21 @@ def gen_cases(tier, seed):
         spec = gen.spec(nodes, edges, nattr=attr if node else None, eattr=None if node else attr)
         cases.append({"spec": spec, "cyc": cyc, "node": node, "wt": wt, "ignore": gen.jl(ign), "scale": [[gen.jl(e) if isinstance(e, tuple) else e, f] for e, f in sc.items()],
                       "starts": starts, "ends": ends, "lam": lam, "eps": eps})
+        if wt == "int" and not drop and rng.random() < 0.12:
+            # the same numbers as small numpy integers (their sums / products with the number of edges leave the type's range)
+            spec["np_type"] = rng.choice(["uint8", "int8", "uint16", "int16", "int64"])
     # corpus (found by a bug hunter): a cyclic float instance on which the solver returns -1.1e-13 for an edge whose optimum value is 0
     E_ = [("v0", "v3", 469.79), ("v3", "v0", 384.8), ("v3", "v1", 113.96), ("v2", "v1", 195.07), ("v2", "t", 61.55), ("v2", "v0", 600.07), ("v1", "v3", 206.64), ("s", "v3", 955.61)]
     cases.append({"spec": gen.spec(["v0", "v1", "v2", "v3", "s", "t"], [(u, v) for u, v, _ in E_], eattr={(u, v): {"flow": f} for u, v, f in E_}), "cyc": True, "node": False, "wt": "float",
                   "ignore": [], "scale": [], "starts": [], "ends": [], "lam": 0, "eps": None})
+    # corpus (thorough tier, seed 3): the second phase (few_flow_values_epsilon) is declared infeasible by HiGHS' presolve (known finding)
+    cases.append({"spec": gen.spec(["a", "d", "e"], [("a", "d"), ("a", "e"), ("d", "e")], nattr={"a": {"flow": 3}, "d": {"flow": 9}, "e": {"flow": 0}}), "cyc": False, "node": True, "wt": "int",
+                  "ignore": [], "scale": [["a", 0]], "starts": [], "ends": [], "lam": 0, "eps": 0.5})
+    for npt_, val_ in (("uint8", 60), ("int8", 60), ("uint16", 14000), ("int16", 14000)):
+        cn_ = ["a", "b", "c", "d", "e"]; ce_ = list(zip(cn_, cn_[1:] + cn_[:1]))
+        for node_ in (False, True):
+            sp_ = gen.spec(cn_, ce_, nattr={v: {"flow": val_} for v in cn_} if node_ else None, eattr=None if node_ else {e: {"flow": val_} for e in ce_}); sp_["np_type"] = npt_
+            cases.append({"spec": sp_, "cyc": True, "node": node_, "wt": "int", "ignore": [], "scale": [], "starts": [], "ends": [], "lam": 0, "eps": None})
     for i in range(12 if tier == "quick" else 200):
         # the same family at random: cyclic graphs with two-decimal float weights (sums and differences are not exact in binary)
         rng = gen.rng_for("C16dec", seed, i)
@@ -144,7 +155,8 @@ def z3_problem(H, dag, f, scale, starts, ends, lam, wt, fixed=None):
 
 def run_case(case):
     viol = []; obs = collections.Counter()
-    G = gen.build(case["spec"]); cyc, node, wt = case["cyc"], case["node"], case["wt"]
+    G = gen.build({k_: v_ for k_, v_ in case["spec"].items() if k_ != "np_type"})      # (the oracle works on plain Python numbers)
+    cyc, node, wt = case["cyc"], case["node"], case["wt"]
     ign = [models._elem(e) for e in case["ignore"]]; sc = {models._elem(e): f for e, f in case["scale"]}
     kw = {"flow_attr": "flow", "weight_type": wt}
     if node:
@@ -173,7 +185,12 @@ def run_case(case):
         viol.append({"sig": f"C16/{res['stage']}-raises/{res['exc'][0]}{tagstr}", "msg": f"{res['exc']}; {desc}"})
         return {"viol": viol, "obs": dict(obs), "nontrivial": False, "sample": {"desc": desc}}
     if not res["solved"]:
-        viol.append({"sig": f"C16/unsolved{tagstr}", "msg": f"MinErrorFlow not solved; {desc}"})
+        # classification (as in C04/C05/C07/C09/C15): solved as soon as HiGHS' presolve is switched off => solver (trusted base) defect
+        r2 = models.run({"cls": "MinErrorFlow", "spec": case["spec"], "kw": kw}, solver_options=dict(SO, presolve="off"))
+        if r2.get("solved"):
+            viol.append({"sig": "C16/solver-presolve-defect/unsolved" + ("/eps" if case["eps"] else ""), "msg": f"MinErrorFlow not solved with presolve on (status {res.get('status')}), solved with presolve='off'; {desc}"})
+        else:
+            viol.append({"sig": f"C16/unsolved{tagstr}", "msg": f"MinErrorFlow not solved; {desc}"})
         return {"viol": viol, "obs": dict(obs), "nontrivial": False, "sample": {"desc": desc}}
     obs["c16.solved_judged"] += 1
     if node:
